@@ -502,6 +502,10 @@ class Machine:
         if m:
             en = type_head(m.group(1))
             if en in s.enums and m.group(2) in s.enums[en]: return mk_enum(en, m.group(2))
+        if re.match(r'^[A-Z]\w*$', c):
+            # a unit variant printed without its enum (rustc trims unambiguous paths): `const Tokio1`
+            ens = [en for en, vs in s.enums.items() if c in vs]
+            if len(ens) == 1: return mk_enum(ens[0], c)
         r = s.env.const(s, c)
         if r is not None: return r
         f = s.fns.get('const ' + c) or next((s.fns[n] for n in s.fns if n.startswith('const ') and (n == 'const ' + c.split('::')[-1] or n.endswith('::' + c.split('::')[-1]))), None)
@@ -1167,8 +1171,11 @@ class Machine:
             if mq: mod = re.sub(r'<.*$', '', mq.group(1).strip().lstrip('&')).rsplit('::', 1)[0] if '::' in mq.group(1) else None
             else: mod = '::'.join(segs[:-2]) if len(segs) > 2 else None
             if mod:
-                c4 = [c for c in c2 if c.startswith(mod + '::') or ('::' + mod + '::') in c]
-                if c4: c2 = c4
+                mods = [mod] + ([mod.split('::', 1)[1]] if '::' in mod and mod.split('::', 1)[0] in {s.fns[c].crate for c in c2} else [])
+                for md in mods:
+                    # deadpool::managed::PoolConfig seen from another crate: the items of crate `deadpool` are named managed::config::...
+                    c4 = [c for c in c2 if c.startswith(md + '::') or ('::' + md + '::') in c or '/' + md.replace('::', '/') + '/' in c]
+                    if c4: c2 = c4; break
         if trait in ('Default', 'Clone', 'From', 'Into', 'Drop', 'Deref', 'DerefMut') and len(c2) > 1:
             # prefer bodies whose *return type / self* head is exactly tyname
             c3 = [c for c in c2 if type_head(s.fns[c].ret) == tyname or (s.fns[c].params and type_head(s.fns[c].params[0][1]) == tyname)]
